@@ -21,6 +21,7 @@ import (
 type c17Rep struct {
 	Zone       string `json:"zone"` // "" = name without separator
 	Lag        int64  `json:"lag"`  // -1 = unknown (replication not running)
+	LagMilli   int64  `json:"lag_milli,omitempty"` // fractional part in thousandths (a lag source with sub-second resolution)
 	Offline    bool   `json:"offline"`
 	Broken     bool   `json:"broken"` // permanently broken replication (errno 1146)
 	Resetup    string `json:"resetup"` // "fresh_false" | "fresh_true" | "stale_false" | "missing"
@@ -89,6 +90,7 @@ func c17Run(in c17In) c17Out {
 		if r.Lag >= 0 {
 			l := r.Lag
 			n.Lag = &l
+			n.LagMilli = r.LagMilli
 		} else {
 			n.Chan.SQL = false
 		}
@@ -314,13 +316,13 @@ func c17Monitor(m *vk.Meta, in c17In, out c17Out) {
 				}
 				r := in.Reps[idx-1]
 				st := p.State[e.Host]
-				lag := int64(-1)
+				lag := float64(-1)
 				if st.SlaveState != nil && st.SlaveState.ReplicationLag != nil {
-					lag = int64(*st.SlaveState.ReplicationLag)
+					lag = *st.SlaveState.ReplicationLag
 				}
 				if !(lag >= 0 && lag <= 30) || r.Broken || r.Resetup != "fresh_false" {
 					m.Violation("a replica is brought online only with lag at or below the disable threshold, replication not permanently broken and a fresh negative resetup status", in,
-						fmt.Sprintf("pass %d: %s lag=%d broken=%v resetup=%s", pi, e.Host, lag, r.Broken, r.Resetup))
+						fmt.Sprintf("pass %d: %s lag=%v broken=%v resetup=%s", pi, e.Host, lag, r.Broken, r.Resetup))
 				}
 			}
 		}
@@ -339,6 +341,10 @@ func c17Gen(o *vk.Out) c17In {
 	for i := 0; i < k; i++ {
 		in.Reps = append(in.Reps, c17Rep{Zone: []string{"z1", "z1", "z2", "", "z3"}[r.Intn(5)], Lag: lagGrid[r.Intn(len(lagGrid))], Offline: r.Intn(3) == 0,
 			Broken: r.Intn(3) == 0, Resetup: []string{"fresh_false", "fresh_false", "fresh_true", "stale_false", "missing"}[r.Intn(5)], Down: r.Intn(12) == 0})
+		// a lag source with sub-second resolution (quarters: exact in binary floating point)
+		if in.Reps[i].Lag >= 0 {
+			in.Reps[i].LagMilli = []int64{0, 0, 0, 250, 500, 750}[r.Intn(6)]
+		}
 	}
 	if r.Intn(5) == 0 {
 		// zone stress: several lagging online replicas of one zone competing for the cap
@@ -364,6 +370,8 @@ func c17Gen(o *vk.Out) c17In {
 }
 
 func TestVerifC17(t *testing.T) {
+	vk.LagScale = 1000 // lags and lag thresholds are rendered in milliseconds (fractional lags are generated)
+	defer func() { vk.LagScale = 1 }()
 	o := vk.Open()
 	m := vk.NewMeta()
 	run := func(in c17In) (out c17Out) {
